@@ -501,6 +501,19 @@ def _prepare(tier):
     L["forforms"] = [("for", f, None, s) for f in M.FOR_FORMS_ALL if f not in M.FOR_FORMS_MAIN for s in full1]
     n = 4 if quick else 5
     L["switch_seqs"] = [q for k in range(0, n + 1) for q in itertools.product(M.SWITCH_ELEMS, repeat=k)]
+    # focused family beyond the length bound (lead): runs of 2-4 stacked labels
+    # followed by 1-3 statements, optionally followed by another labelled group
+    have = set(L["switch_seqs"])
+    for k in (2, 3, 4):
+        for labels in itertools.product(("case", "default"), repeat=k):
+            if labels.count("default") > 1:
+                continue
+            for m_ in (1, 2, 3):
+                for tail in ((), ("case", "stmt"), ("case", "case", "stmt", "stmt")):
+                    q = labels + ("stmt",) * m_ + tail
+                    if q not in have:
+                        have.add(q)
+                        L["switch_seqs"].append(q)
     m = 3 if quick else 4
     L["outer_file"] = [q for k in range(1, m + 1) for q in itertools.product(FILE_ELEMS, repeat=k)]
     L["outer_struct"] = [q for k in range(1, m + 1) for q in itertools.product(STRUCT_ELEMS, repeat=k) if "decl" in q]
